@@ -142,7 +142,7 @@ func C17(e *Env) {
 		}
 		return rs
 	}
-	nPairs := e.Pick(12, 200)
+	nPairs := e.Pick(60, 1000)
 	for _, img := range imgs {
 		reqs := []wire.Req{wire.P(wire.OpOpen, "/"+img.rel)}
 		reqs = append(reqs, pairsFor(img, nPairs)...)
